@@ -85,6 +85,7 @@ type Env struct {
 	bound map[string]bool
 	fr    *Frame // for named locals (loop invariants)
 	lets  map[string]CV
+	prev  *State // loop-head state of the current iteration (for prev())
 }
 
 func (e *Env) child() *Env {
@@ -162,9 +163,27 @@ func (e *Env) eval(x Expr) CV {
 			bv += "_"
 		}
 		ne.bound[bv] = true
-		ne.vars[x.Var] = CV{k: cvInt, t: bv}
+		// Quantify over absolute positions of the text that the variable
+		// indexes: with Var := j - off the index term off + Var simplifies to
+		// j, which gives the solver the trigger (select arr j).
+		shift := T("0")
+		if base := indexedBase(x.Body, x.Var); base != nil {
+			func() {
+				defer func() { recover() }()
+				if bc := e.eval(base); bc.k == cvStr {
+					shift = bc.off
+				}
+			}()
+		}
+		var rng T
+		if shift == "0" {
+			ne.vars[x.Var] = CV{k: cvInt, t: bv}
+			rng = and(le(lo, bv), lt(bv, hi))
+		} else {
+			ne.vars[x.Var] = CV{k: cvInt, t: sub(bv, shift)}
+			rng = and(le(add(shift, lo), bv), lt(bv, add(shift, hi)))
+		}
 		body := ne.eval(x.Body).asBool()
-		rng := and(le(lo, bv), lt(bv, hi))
 		if x.Forall {
 			return CV{k: cvBool, t: fmt.Sprintf("(forall ((%s Int)) %s)", bv, imp(rng, body))}
 		}
@@ -182,6 +201,30 @@ func (e *Env) eval(x Expr) CV {
 	}
 	unsupp("contract: cannot evaluate %T", x)
 	return CV{}
+}
+
+// indexedBase finds an expression X such that the body contains X[... v ...]
+// and X itself does not mention v.
+func indexedBase(body Expr, v string) Expr {
+	var found Expr
+	mentions := func(e Expr) bool {
+		m := false
+		walkExpr(e, func(x Expr) {
+			if id, ok := x.(*EIdent); ok && id.Name == v {
+				m = true
+			}
+		})
+		return m
+	}
+	walkExpr(body, func(x Expr) {
+		if found != nil {
+			return
+		}
+		if ix, ok := x.(*EIndex); ok && mentions(ix.I) && !mentions(ix.X) {
+			found = ix.X
+		}
+	})
+	return found
 }
 
 func (e *Env) iteCV(c T, a, b CV) CV {
@@ -588,6 +631,13 @@ func (e *Env) call(x *ECall) CV {
 		}
 		ne.fr = nil
 		return ne.eval(x.Args[0])
+	case "prev":
+		if e.prev == nil {
+			unsupp("contract: prev() outside an apply clause")
+		}
+		ne := *e
+		ne.st = e.prev
+		return ne.eval(x.Args[0])
 	case "sameView":
 		a, b := arg(0), arg(1)
 		if a.k != cvStr || b.k != cvStr {
@@ -603,6 +653,19 @@ func (e *Env) call(x *ECall) CV {
 			return CV{k: cvBool, t: eq(a.v.slRef(), b.v.slRef())}
 		}
 		unsupp("contract: sameBase needs two strings or two slices")
+	case "arrOf":
+		a := arg(0)
+		if a.k == cvStr {
+			return CV{k: cvArr, t: a.arr, n: "0"}
+		}
+		unsupp("contract: arrOf of non-string")
+	case "mkstr":
+		// mkstr(arr, off, len): the string view with these coordinates
+		a := arg(0)
+		if a.k != cvArr {
+			unsupp("contract: mkstr(array, off, len)")
+		}
+		return CV{k: cvStr, arr: a.t, off: arg(1).asInt(), n: arg(2).asInt()}
 	case "off":
 		a := arg(0)
 		if a.k == cvStr {
@@ -983,7 +1046,10 @@ func (fx *FnCtx) emitSpecFn(sf *SpecFn) {
 					pre = append(pre, le("0", cv.off), le("0", cv.n))
 				}
 			}
-			if len(params) > 0 {
+			if sf.Opaque {
+				// nested quantifiers: only ground instances (added at each
+				// use) are given to the solver
+			} else if len(params) > 0 {
 				fx.decls.Raw(fmt.Sprintf("(assert (forall (%s) (! %s :pattern (%s))))", strings.Join(params, " "), imp(and(pre...), and(posts...)), appl))
 			} else {
 				fx.decls.Raw(fmt.Sprintf("(assert %s)", and(posts...)))
@@ -1009,6 +1075,23 @@ func (fx *FnCtx) emitSpecFn(sf *SpecFn) {
 	kw := "define-fun"
 	if sf.Recursive {
 		kw = "define-fun-rec"
+	}
+	if sf.Opaque && !sf.Recursive && len(params) > 0 {
+		// quantified definitions stay behind a function symbol (congruence
+		// identifies applications on equal arguments; the body is available
+		// through the defining axiom, triggered by the application)
+		var sorts, names []string
+		for _, p := range sf.Params {
+			sorts = append(sorts, e.specTypeOf(p.Type).sorts...)
+		}
+		for _, p := range params {
+			names = append(names, strings.Fields(strings.Trim(p, "()"))[0])
+		}
+		appl := app(name, names...)
+		fx.decls.Raw(fmt.Sprintf("(declare-fun %s (%s) %s)", name, strings.Join(sorts, " "), rt.sorts[0]))
+		fx.decls.Raw(fmt.Sprintf("(assert (forall (%s) (! (= %s %s) :pattern (%s))))", strings.Join(params, " "), appl, bt, appl))
+		fx.specFnState[sf.Name] = 2
+		return
 	}
 	fx.decls.Raw(fmt.Sprintf("(%s %s (%s) %s %s)", kw, name, strings.Join(params, " "), rt.sorts[0], bt))
 	fx.specFnState[sf.Name] = 2
